@@ -376,6 +376,43 @@ def _rule_e(res: Results, idx: Index, m, dts, tier: str = "quick") -> None:
             res.ok("R-C17e", f"{OPT}:1", key, "every output element is an element of the first input", "")
         else:
             res.violation("R-C17e", f"{OPT}:1", key, f"{op} can produce values that are not elements of its first input: integer bounds proven for the input do not hold for its output, so a narrowing Cast pair could be dropped unsoundly", "")
+    # the two walkers of the range proof may step to `inputs[0]` of a producer only through that table: any further predicate
+    # on the producer in their guards (`or _is_integer_to_integer_cast(producer)`) is another admission path, and the
+    # operators it admits have to be value-set preserving as well (a narrowing / sign-changing integer Cast wraps)
+    for wname in ("_known_integer_scalar", "_known_integer_value_bounds"):
+        wf = idx.func(OPT, wname)
+        seen_preds: Set[str] = set()
+        for c in walk_no_nested(wf.node):
+            if not (isinstance(c, ast.Call) and any(isinstance(a, ast.Name) and a.id == "producer" for a in c.args)):
+                continue
+            cn = call_name(c) or ""
+            if cn in seen_preds or cn in ("_node_inputs", "_node_outputs", "_node_output", "_first_input", "_get_attr", "getattr", "id", "_attr_to_int", "len", wname) or not cn:
+                continue
+            seen_preds.add(cn)
+            pf = None
+            if cn == "_is_standard_onnx_node":
+                admitted = [a.value for a in c.args[1:] if isinstance(a, ast.Constant) and isinstance(a.value, str)]
+                # Range / Constant are handled by their own branches (closed form / payload), not stepped through
+                admitted = [o for o in admitted if o not in ("Range", "Constant")]
+            else:
+                pf = idx.find_func(OPT, cn)
+                if pf is None:
+                    res.unresolved("R-C17e", f"{OPT}:{c.lineno}", f"{wname}::admission::{cn}", f"predicate {cn}(producer) in the walker's guards could not be resolved", wf.qualname)
+                    continue
+                admitted = [a.value for x in ast.walk(pf.node) if isinstance(x, ast.Call) and (call_name(x) or "") == "_is_standard_onnx_node" for a in x.args[1:] if isinstance(a, ast.Constant) and isinstance(a.value, str)]
+                admitted += [k.value for x in ast.walk(pf.node) if isinstance(x, ast.Compare) and isinstance(x.left, ast.Attribute) and x.left.attr == "op_type" for k in ast.walk(x.comparators[0]) if isinstance(k, ast.Constant) and isinstance(k.value, str)]
+                if not admitted:
+                    continue      # not an operator predicate
+            for op in sorted(set(admitted)):
+                key = f"{wname}::admission::{cn}::{op}"
+                range_checked = cn != "_is_standard_onnx_node" and pf is not None and any(isinstance(x, ast.Compare) and any(isinstance(o, (ast.Lt, ast.LtE, ast.Gt, ast.GtE)) for o in x.ops) for x in ast.walk(pf.node))
+                if op in VALUE_SET_PRESERVING:
+                    res.ok("R-C17e", f"{OPT}:{c.lineno}", key, f"{cn}() admits {op}, which is value-set preserving", wf.qualname)
+                elif range_checked:
+                    res.unresolved("R-C17e", f"{OPT}:{c.lineno}", key, f"{cn}() admits {op} under a range comparison of its own; whether that comparison makes the step value preserving is not decided", wf.qualname)
+                else:
+                    res.violation("R-C17e", f"{OPT}:{c.lineno}", key, f"{wname} also steps through producers accepted by {cn}(), i.e. through `{op}`: {op} can change values (an integer Cast to a narrower or "
+                                  "differently signed type wraps), so bounds proven for its operand do not hold for its result and a later narrowing Cast pair is dropped unsoundly", wf.qualname)
     f = idx.func(OPT, "_known_integer_value_bounds")
     anchor = None
     for n in f.node.body:  # type: ignore[attr-defined]
